@@ -43,12 +43,23 @@ def run_batch(cases, backends="vm,wasm", want_model=True, nshards=None):
             res[crasher["id"]] = [died, died, None]
             todo = missing[1:]
         if want_model:
-            minp = "".join(f"{c['id']}\t{c['times']}\t{coregen.inputs_field(c['inputs'])}\t{c['sx']}\n" for c in sh if c.get("sx"))
-            q = run([os.path.join(LEANBIN, "drv_prog")], input=minp, timeout=3600)
-            for l in q.stdout.splitlines():
-                f = l.split("\t")
-                if len(f) >= 2 and f[0] in res:
-                    res[f[0]][2] = f[1]
+            def model_run(cs, timeout):
+                minp = "".join(f"{c['id']}\t{c['times']}\t{coregen.inputs_field(c['inputs'])}\t{c['sx']}\n" for c in cs if c.get("sx"))
+                import subprocess
+                try:
+                    q = run([os.path.join(LEANBIN, "drv_prog")], input=minp, timeout=timeout)
+                except subprocess.TimeoutExpired:
+                    return False
+                for l in q.stdout.splitlines():
+                    f = l.split("\t")
+                    if len(f) >= 2 and f[0] in res:
+                        res[f[0]][2] = f[1]
+                return True
+            if not model_run(sh, 300):
+                # some program is too expensive for the reference evaluator: find it, mark it, keep the others
+                for c in sh:
+                    if c.get("sx") and res[c["id"]][2] is None and not model_run([c], 20):
+                        res[c["id"]][2] = "skip:model-timeout"
         return res
     out = {}
     for r in parallel(shards, work, nproc=nshards):
